@@ -1067,6 +1067,147 @@ def T1(F, rep, FL):
            'minimum object size (%d paths)' % n if bad is None else 'uncompressedFile2ReadWriteQueue: ' + bad, nontrivial=True)
 
 
+# ---------------------------------------------------------------------- B7 copy loops of the in-memory stream
+def mname(e):
+    e = strip_all_casts(e)
+    return e.get('name') if isinstance(e, dict) and e.get('k') == 'Member' else None
+
+
+def _norm(sx):
+    return sx.replace('.operator long()', '').replace('this.', '')
+
+
+def B7(F, rep):
+    """every std::copy between a caller buffer and a container of the stream stays inside the container:
+    the container is the one logContainerContaining(P) returned (post-condition read off its predicate:
+    filePosition <= P < filePosition + SIZE), the offset is P - filePosition, the count is bounded by SIZE - offset, and
+    SIZE is the field that the container invariant (B3) ties to the buffer's size()"""
+    cls = 'Vector::BLF::UncompressedFile'
+    finder = F.fn(cls + '::logContainerContaining')
+    lam = [n for n in walk(finder['body']) if n.get('k') == 'Lambda']
+    rep.count('B7')
+    post = None
+    if lam:
+        rets = [r for r in walk(lam[0]['body']) if r.get('k') == 'Return']
+        if rets:
+            post = _norm(expr_str(rets[0]['value']))
+    pname = finder['params'][0]['name'] if finder['params'] else 'pos'
+    want_post = '((%s >= filePosition) && (%s < (uncompressedFileSize + filePosition)))' % (pname, pname)
+    alt_post = '((%s >= filePosition) && (%s < (filePosition + uncompressedFileSize)))' % (pname, pname)
+    ok_post = post in (want_post, alt_post)
+    rep.ob('B7', 'logContainerContaining|postcondition', ok_post, rep.fn_site(finder),
+           'logContainerContaining(pos) returns a container with filePosition <= pos < filePosition + uncompressedFileSize' if ok_post else
+           'logContainerContaining selects containers by [%s]: a position outside [filePosition, filePosition + uncompressedFileSize) can be returned' % post,
+           nontrivial=True)
+    ncopies = 0
+    for fn in methods_of(F, cls):
+        decls = {}
+        for n in walk(fn['body'], into_lambda=False):
+            if n.get('k') == 'Decl':
+                for v in n['vars']:
+                    if v.get('init') is not None:
+                        decls[v['name']] = v
+        for n in walk(fn['body'], into_lambda=False):
+            if not (n.get('k') == 'Call' and (n.get('callee') or '').startswith('std::copy')):
+                continue
+            ncopies += 1
+            rep.count('B7')
+            args = [_norm(expr_str(a)) for a in n['args']]
+            cont = [a for a in args if 'uncompressedFile.cbegin()' in a or 'uncompressedFile.begin()' in a]
+            problems = []
+            import re
+            m = re.match(r'^\(uncompressedFile\.c?begin\(\) \+ (\w+)\)$', cont[0]) if cont else None
+            if not m:
+                problems.append('container-side iterator is not begin() + <offset variable>: %s' % (cont[:1] or args))
+            else:
+                off = m.group(1)
+                # count variable: the other bound
+                if len(cont) == 2:
+                    m2 = re.match(r'^\(\(uncompressedFile\.c?begin\(\) \+ %s\) \+ (\w+)\)$' % off, cont[1])
+                    cnt = m2.group(1) if m2 else None
+                else:
+                    other = [a for a in args if a not in cont]
+                    m2 = re.match(r'^\((\w+) \+ (\w+)\)$', other[1]) if len(other) == 2 else None
+                    cnt = m2.group(2) if m2 else None
+                if cnt is None:
+                    problems.append('cannot identify the element count of the copy: %s' % args)
+                od = decls.get(off)
+                oinit = _norm(expr_str(od['init'])) if od else None
+                mo = re.match(r'^\((m_tell[gp]) - filePosition\)$', oinit or '')
+                if not mo:
+                    problems.append('offset %s is defined as [%s], expected <position> - filePosition' % (off, oinit))
+                else:
+                    pos = mo.group(1)
+                    lc = [v for v in decls.values() if 'logContainerContaining(%s)' % pos in _norm(expr_str(v['init']))]
+                    if not lc:
+                        problems.append('the container is not the one logContainerContaining(%s) returned' % pos)
+                if cnt is not None:
+                    cd = decls.get(cnt)
+                    cinit = _norm(expr_str(cd['init'])) if cd else ''
+                    if '(uncompressedFileSize - %s)' % off not in cinit or not (cinit.startswith('min(') or '?' in cinit or 'Cond' in cinit):
+                        problems.append('count %s is defined as [%s]: not bounded by uncompressedFileSize - %s' % (cnt, cinit, off))
+            rep.ob('B7', '%s|copy@%s' % (short(fn['name']) + ('/container' if 'shared_ptr' in fn['sig'] else ''), len([1 for _ in range(ncopies)])),
+                   not problems, rep.fn_site(fn, n['l']),
+                   '%s: std::copy stays inside the container (offset = pos - filePosition, count <= uncompressedFileSize - offset)' % short(fn['name'])
+                   if not problems else '%s: std::copy may run past the container buffer: %s' % (short(fn['name']), '; '.join(problems)), nontrivial=True)
+    if ncopies < 2:
+        raise AnalysisBroken('B7: expected the two copy loops of UncompressedFile, found %d std::copy calls' % ncopies)
+    # B3w: inside the stream class, the buffer and its size field are only ever changed together
+    for fn in methods_of(F, cls):
+        seq = []
+        for n in walk(fn['body'], into_lambda=False):
+            if n.get('k') == 'Call' and n.get('fn') == 'resize' and mname(n.get('obj')) == 'uncompressedFile':
+                seq.append(('resize', n['l'], _norm(expr_str(n['args'][0]))))
+            if n.get('k') == 'Bin' and n.get('op') == '=' and mname(n['lhs']) == 'uncompressedFileSize':
+                seq.append(('assign', n['l'], _norm(expr_str(n['rhs']))))
+        if not seq:
+            continue
+        rep.count('B3')
+        rs = [x for x in seq if x[0] == 'resize']
+        asg = [x for x in seq if x[0] == 'assign']
+        ok = len(rs) == len(asg) and all(a[2] == r[2] or a[2] == 'uncompressedFile.size()' for r, a in zip(rs, asg))
+        rep.ob('B3', '%s|stream-container-invariant' % short(fn['name']), ok, rep.fn_site(fn, seq[0][1]),
+               '%s resizes a container buffer and sets uncompressedFileSize to the same value (%s)' % (short(fn['name']), ', '.join(r[2] for r in rs)) if ok else
+               '%s changes a container buffer and its size field inconsistently: %s' % (short(fn['name']), seq), nontrivial=True)
+
+
+# ---------------------------------------------------------------------- P4: consumed data only
+def P4(F, rep, FL):
+    """dropOldData removes the front container only when it lies wholly behind the get position (and put position / end)"""
+    fn = F.fn('Vector::BLF::UncompressedFile::dropOldData')
+    rep.count('P4')
+    bad = None
+    n = 0
+    for evs, out in FL.paths(fn, follow=()):
+        pops = [i for i, e in enumerate(evs) if e['ev'] == 'call' and e['n'].get('fn') in ('pop_front', 'erase', 'pop') and
+                (member_path(e['n'].get('obj')) or (None,))[-1] == 'm_data']
+        if not pops:
+            continue
+        # an empty (null) front entry holds no bytes: popping it loses nothing
+        nullfront = [e for e in evs[:pops[0]] if e['ev'] == 'branch' and not e['taken'] and
+                     isinstance(strip_all_casts(e['n']), dict) and strip_all_casts(e['n']).get('fn') in ('operator bool',) and
+                     not any(x.get('k') == 'Member' for x in walk(e['n']))]
+        if nullfront:
+            continue
+        n += 1
+        guard = [e for e in evs[:pops[0]] if e['ev'] == 'branch' and not e['taken'] and
+                 any(x.get('k') == 'Member' and x.get('name') == 'm_tellg' for x in walk(e['n']))]
+        okg = False
+        for g in guard:
+            sx = _norm(expr_str(g['n']))
+            if '(position > m_tellg)' in sx or '(m_tellg < position)' in sx:
+                okg = True
+        posdef = [e for e in evs[:pops[0]] if e['ev'] == 'decl' and e['var']['name'] == 'position']
+        okp = bool(posdef) and _norm(expr_str(posdef[0]['var']['init'])) in ('(uncompressedFileSize + filePosition)', '(filePosition + uncompressedFileSize)')
+        front = any(e['ev'] == 'call' and e['n'].get('fn') == 'front' for e in evs[:pops[0]])
+        if not (okg and okp and front):
+            bad = 'a path pops the front container without the guard position(front) <= m_tellg (guard=%s, position=end of front container: %s)' % (okg, okp and front)
+            break
+    rep.ob('P4', 'dropOldData|only-consumed', bad is None and n > 0, rep.fn_site(fn),
+           'dropOldData pops the front container only if its end position is not beyond m_tellg (%d popping path(s))' % n if bad is None and n > 0 else
+           'dropOldData: %s - unread bytes can be discarded' % (bad or 'no popping path'), nontrivial=True)
+
+
 # ---------------------------------------------------------------------- DN null checks, Z1, K9
 def DN(F, rep, FL):
     fn = F.fn(U2Q)
